@@ -45,7 +45,8 @@ func detCanon(cs []detCall) []detCall {
 	out := make([]detCall, len(cs))
 	for i, c := range cs {
 		if _, ok := names[c.N]; !ok {
-			names[c.N] = []string{"deriveEqualA", "deriveEqualB", "deriveEqualC"}[len(names)]
+			// names of different lengths whose length order and alphabetical order disagree for the first two
+			names[c.N] = []string{"deriveEqualB", "deriveEqualAA", "deriveEqualCCC"}[len(names)]
 		}
 		k := c.K
 		if k == "I1" || k == "I2" {
